@@ -1,12 +1,13 @@
 import PycModel.Proto
 import PycModel.Lexer
+import PycModel.Parser.Stmt
 import PycModel.Generated.LexTables
 /-! Model driver: one request per line on stdin, one response per line on stdout. -/
 open PycModel PycModel.Proto
 
 def evStr : Ev → String
   | .tok t _ file => rec ["T", t.kind, t.val, toString t.line, toString t.col, file]
-  | .err msg line col _ => rec ["E", msg, toString line, toString col]
+  | .err msg line col _ _ => rec ["E", msg, toString line, toString col]
   | .eof file => rec ["EOF", file]
   | .stuck => "STUCK"
   | .dir _ _ => ""
@@ -17,6 +18,14 @@ def handle (line : String) : String :=
     let ts := if types.isEmpty then [] else types.splitOn ","
     let evs := scan Generated.lexCfg (fun n => ts.contains n) text.toList file
     "\t".intercalate ((evs.filter fun e => match e with | .dir _ _ => false | _ => true).map evStr)
+  | ["parse", file, text] =>
+    match (parseText Generated.lexCfg 100000 text file).1 with
+    | .ast v => "OK\t" ++ escape (v.dump false) ++ "\t" ++ escape (v.dump true)
+    | .parseError loc msg => "PE\t" ++ escape (loc.str ++ ": " ++ msg)
+    | .crash k site => "CRASH\t" ++ (match k with
+        | .assertion => "assertion" | .attribute => "attribute" | .value => "value"
+        | .index => "index" | .type => "type" | .key => "key") ++ "\t" ++ escape site
+    | .fuel => "FUEL"
   | op :: _ => "BADOP " ++ op
   | [] => "BADOP"
 
